@@ -40,14 +40,14 @@ class Cases(object):
         self.cases = []      # dict(line, script, url, fam, [targets])
         self.seen = set()
 
-    def add(self, line, script, fam, url=None, responder=None, targets=None):
+    def add(self, line, script, fam, url=None, responder=None, targets=None, tail=None):
         key = json.dumps([line, script, url], sort_keys=True) if responder is None else None
         if key is not None:
             if key in self.seen:
                 return
             self.seen.add(key)
         self.cases.append({'line': line, 'script': script, 'url': url, 'fam': fam, 'responder': responder,
-                           'targets': targets})
+                           'targets': targets, 'tail': tail})
 
 
 def answer_entries(codes):
@@ -74,6 +74,15 @@ def reduced(codes):
     F = faults()
     return [F['SUCCESS'], F['ALREADY_STARTED'], F['NOT_RUNNING'], F['BAD_NAME'], F['FAILED'], F['SPAWN_ERROR'],
             F['SHUTDOWN_STATE'], 99]
+
+
+def at(ans, i):
+    """the same answer with texts that name the position of the target it belongs to"""
+    if ans[0] == 'fault':
+        return ['fault', ans[1], '%s @%d' % (ans[2], i)]
+    if ans[0] == 'results':
+        return ['results', [[x[0], x[1], x[2], '%s @%d' % (x[3], i)] for x in ans[1]]]
+    return ans
 
 
 def gen_targets(cs, quick):
@@ -110,7 +119,8 @@ def gen_targets(cs, quick):
                     full1 = False
             for a1 in answers_for(n1, full1):
                 for a2 in answers_for(n2, full2):
-                    cs.add(pre + n1 + ' ' + n2, [up_ok(), a1, a2], 'targets', targets=(act, [n1, n2], [a1, a2]))
+                    b1, b2 = at(a1, 1), at(a2, 2)
+                    cs.add(pre + n1 + ' ' + n2, [up_ok(), b1, b2], 'targets', targets=(act, [n1, n2], [b1, b2]))
         # three names
         names = ['a', 'b', 'c']
         if quick:
@@ -120,6 +130,7 @@ def gen_targets(cs, quick):
                         for o2 in single_red[:6]:
                             al = [o1, o2]
                             al.insert(pos, full_ans)
+                            al = [at(x, i + 1) for i, x in enumerate(al)]
                             cs.add(pre + ' '.join(names), [up_ok()] + al, 'targets', targets=(act, names, al))
         else:
             for al in itertools.product(single, repeat=3):
@@ -296,12 +307,73 @@ def gen_single_call(cs, quick):
         cs.add('update', [['reload', [], [], ['r']], ['results', [res('p', 'r', st), res('q', 'r', 80)]], upd_ok], 'update')
 
 
+def gen_tail(cs, quick):
+    """tail / maintail given by meaning (what, how many bytes) x every answer; judged by the tail monitor"""
+    F = faults()
+    codes = sorted(set(F.values())) + UNKNOWN_CODES
+    answers = [['str', 'line 1\nline 2\n'], ['str', '']] + [['fault', c, 'T%d' % c] for c in codes] + \
+              [['sock', 111, 'Connection refused'], ['sock', 104, 'Connection reset by peer'],
+               ['proto', 401, 'Unauthorized'], ['proto', 500, 'Internal Server Error']]
+    whats = [('proc', 'a', False, ''), ('proc', 'a', False, ' stdout'), ('proc', 'g:p', True, ' stderr'),
+             ('proc', 'BAD_NAME', True, ' STDERR'), ('main', None, False, '')]
+    sizes = [None, 0, 1, 5, 1600, -5, 10 ** 12, 'f']
+    for kind, name, se, chan in whats:
+        for n in sizes:
+            mod = '' if n is None else (' -f' if n == 'f' else ' -%d' % n)
+            line = ('tail%s %s%s' % (mod, name, chan)) if kind == 'proc' else 'maintail' + mod
+            nbytes = 1600 if n is None else n
+            for ans in (answers if n != 'f' else [['unit']]):
+                script = [up_ok(), ans] if n != 'f' else [up_ok()]
+                cs.add(line, script, 'tail', tail=(kind, name, se, nbytes, ans))
+    # leading zeros and an explicit plus sign mean the same number
+    cs.add('tail -007 a', [up_ok(), ['str', 'x']], 'tail', tail=('proc', 'a', False, 7, ['str', 'x']))
+    cs.add('tail -+3 a stderr', [up_ok(), ['fault', F['NO_FILE'], 'NO_FILE']], 'tail',
+           tail=('proc', 'a', True, 3, ['fault', F['NO_FILE'], 'NO_FILE']))
+    cs.add('maintail -000', [up_ok(), ['fault', F['FAILED'], 'FAILED']], 'tail',
+           tail=('main', None, False, 0, ['fault', F['FAILED'], 'FAILED']))
+
+
+def gen_fg(cs, quick):
+    """fg up to the point where it becomes interactive (not in the property's list of actions:
+    correspondence only)"""
+    F = faults()
+    codes = sorted(set(F.values())) + UNKNOWN_CODES
+    for line in ['fg', 'fg a b', 'fg  a   b c']:
+        cs.add(line, [up_ok()], 'fg')
+    for st, nm in [(0, 'STOPPED'), (10, 'STARTING'), (30, 'BACKOFF'), (40, 'STOPPING'), (100, 'EXITED'), (200, 'FATAL'),
+                   (1000, 'UNKNOWN')]:
+        cs.add('fg a', [up_ok(), ['info', ['a', 'a', st, nm, '', 0]]], 'fg')
+    for c in codes:
+        cs.add('fg g:a', [up_ok(), ['fault', c, 'F%d' % c]], 'fg')
+    for bad in [['sock', 111, 'Connection refused'], ['sock', 104, 'reset'], ['proto', 401, 'Unauthorized'], ['str', '9.9']]:
+        cs.add('fg a', [bad], 'fg')
+        if bad[0] != 'str':
+            cs.add('fg a', [up_ok(), bad], 'fg')
+
+
+def gen_more_forms(cs, quick):
+    """remaining command x form combinations: restart all / group x every code, add/remove `all`
+    (an ordinary group name there), pid group:*"""
+    F = faults()
+    codes = sorted(set(F.values())) + UNKNOWN_CODES
+    for c1 in codes:
+        for c2 in reduced(codes):
+            cs.add('restart all', [up_ok(), up_ok(), ['results', [res('p', 'g', c1), res('q', 'q', 80)]],
+                                   up_ok(), ['results', [res('p', 'g', c2)]]], 'restart')
+        cs.add('restart all', [up_ok(), up_ok(), ['fault', c1, 'F%d' % c1]], 'restart', responder=OkResponder())
+        cs.add('restart a all', [up_ok(), up_ok(), ['results', []], up_ok(), ['fault', c1, 'F%d' % c1]], 'restart')
+        cs.add('add all', [['fault', c1, 'F%d' % c1]], 'names')
+        cs.add('remove all b', [['fault', c1, 'F%d' % c1], ['unit']], 'names')
+        cs.add('pid g:* a', [up_ok(), ['fault', c1, 'F%d' % c1], ['info', ['a', 'a', 20, 'RUNNING', '', 9]]], 'names')
+    cs.add('add all', [['unit']], 'names')
+
+
 def gen_server_states(cs, quick):
     """every action x server state at the first call, and transport errors mid-command"""
     lines = ['start a b', 'stop a b', 'restart a', 'signal HUP a b', 'clear a b', 'status', 'status a', 'pid',
              'pid a', 'pid all', 'add a b', 'remove a b', 'update', 'update a', 'reread', 'avail', 'tail a',
              'tail -5 a stderr', 'maintail', 'shutdown', 'reload', 'version', 'start all', 'stop g:*',
-             'signal TERM all', 'clear all', 'open http://h:1']
+             'signal TERM all', 'clear all', 'open http://h:1', 'fg a', 'tail -f a', 'maintail -f', 'tail -0 a']
     states = [
         ('unreachable-refused', [['sock', 111, 'Connection refused']]),
         ('unreachable-nofile', [['sock', 2, 'No such file or directory']]),
@@ -435,6 +507,7 @@ def run_cases(chk, cases, wd):
     terms, metas = [], []
     mon_terms, mon_metas = [], []
     stat_terms, stat_metas = [], []
+    tail_terms, tail_metas = [], []
     distinct = set()
     F = faults()
     for i, c in enumerate(cases):
@@ -460,6 +533,7 @@ def run_cases(chk, cases, wd):
         # direct judgement, independent of the model: a fault or transport error must not
         # pass silently with status 0
         judge_silent(chk, c, r, served, lines, meta, F)
+        judge_update(chk, c, r, served, lines, meta, F)
         terms.append(term)
         metas.append(meta)
         distinct.add((c['line'].split()[0] if c['line'].split() else '', tuple(l[0] for l in lines), r['status'],
@@ -468,11 +542,19 @@ def run_cases(chk, cases, wd):
             stat_terms.append('(mkstat %s %s %s)' % (H.clist(H.cs(w) for w in c['line'].split()[1:]),
                                                       H.clist(H.coq_pinfo(x) for x in served[1][1]), H.cz(r['status'])))
             stat_metas.append(meta)
+        if c.get('tail') is not None and enc is None:
+            kind, name, se, nbytes, ans = c['tail']
+            what = 'TailMain' if kind == 'main' else '(TailProc %s %s)' % (H.cs(name), H.cb(se))
+            tail_terms.append('(mktail %s %s (%s) %s %s %s)' % (
+                what, 'None' if nbytes == 'f' else '(Some %s)' % H.cz(nbytes), H.coq_resp(ans),
+                H.clist(H.coq_line(l) for l in lines), H.cz(r['status']), H.clist(H.coq_call(x) for x in r['calls'])))
+            tail_metas.append(meta)
         if c['targets'] is not None:
             act, names, answers = c['targets']
             mon_terms.append(monitor_term(H, act, names, answers, lines, r['status']))
             mon_metas.append(meta)
-    return terms, metas, mon_terms, mon_metas, distinct, stat_terms, stat_metas
+    mons = {'targets': (mon_terms, mon_metas), 'status': (stat_terms, stat_metas), 'tail': (tail_terms, tail_metas)}
+    return terms, metas, mons, distinct
 
 
 def direct_failures(chk):
@@ -483,6 +565,50 @@ def _direct(chk, obj):
     chk._c20_direct = getattr(chk, '_c20_direct', 0) + 1
     if chk._c20_direct <= 5:
         chk.violation(obj)
+
+
+def judge_update(chk, c, r, served, lines, meta, F):
+    """`update [names]` when every request succeeds: the groups acted on, the result lines, the
+    'no such group' lines (exactly the named groups the server does not know) and the exit status,
+    judged from the server's answers alone"""
+    words = c['line'].split()
+    used = served[:len(r['served'])]
+    if not words or words[0] != 'update' or not used or used[0][0] != 'reload':
+        return
+    if any(e[0] in ('fault', 'sock', 'proto') for e in used):
+        return
+    if any(e[0] == 'results' and any(x[2] == F['FAILED'] for x in e[1]) for e in used):
+        return
+    added, changed, removed = used[0][1], used[0][2], used[0][3]
+    names = set(words[1:])
+    if 'all' in names:
+        names = set()
+    invalid = []
+    if names:
+        infos = [e for e in used if e[0] == 'infos']
+        if not infos:
+            return
+        groups = set(i[1] for i in infos[0][1]) | set(added)
+        invalid = sorted(n for n in names if n not in groups)
+    exp = []
+    for g in removed:
+        if not names or g in names:
+            exp += ['%s: stopped' % g, '%s: removed process group' % g]
+    for g in changed:
+        if not names or g in names:
+            exp += ['%s: stopped' % g, '%s: updated process group' % g]
+    for g in added:
+        if not names or g in names:
+            exp += ['%s: added process group' % g]
+    texts = [l[1] for l in lines if l[0] == 'text']
+    got_err = sorted(x for x in texts if x.startswith('ERROR: no such group: '))
+    got = [x for x in texts if not x.startswith('ERROR: no such group: ')]
+    exp_err = ['ERROR: no such group: %s' % g for g in invalid]
+    exp_status = 1 if invalid else 0
+    if got_err != exp_err or got != exp or r['status'] != exp_status or len(texts) != len(lines):
+        _direct(chk, dict(meta, kind='update: with every request answered successfully, the result lines, the '
+                          '"no such group" lines (named groups unknown to the server) or the exit status are not the '
+                          'specified ones', expected_lines=exp_err + exp, expected_status=exp_status))
 
 
 def judge_silent(chk, c, r, served, lines, meta, F):
@@ -510,8 +636,9 @@ def judge_silent(chk, c, r, served, lines, meta, F):
     bad = [e for e in served[:len(r['served'])] if e[0] in ('sock', 'proto') or (e[0] == 'fault' and e[1] not in ok_codes)]
     if not bad:
         return
-    if act == 'open':
-        return   # do_open restores the previous exit status by design (TODO in the source)
+    if act in ('open', 'fg'):
+        return   # do_open restores the previous exit status by design (TODO in the source); fg is interactive
+                 # and outside the property's list of actions (its exit 0 on a fault is a note in known.d)
     has_err = any(l[0] == 'err' or (l[0] == 'text' and ('ERROR' in l[1] or 'error' in l[1].lower() or 'refused connection' in l[1]
                                                       or 'no such file' in l[1] or 'Sorry' in l[1] or 'No such process' in l[1]
                                                       or 'requires authentication' in l[1]
@@ -553,6 +680,9 @@ def build_cases(chk):
     gen_restart(cs, quick)
     gen_status(cs, quick)
     gen_single_call(cs, quick)
+    gen_tail(cs, quick)
+    gen_fg(cs, quick)
+    gen_more_forms(cs, quick)
     gen_server_states(cs, quick)
     n_exh = len(cs.cases)
     gen_random(cs, chk, 3000 if quick else 60000)
@@ -573,63 +703,73 @@ def run(chk, only=None):
         _run(chk, wd, proved, only)
 
 
+MONITORS = {
+    'targets': ('mon_case', 'monitor_ok',
+                'the implementation violates the C20 specification monitor (exit status / never silent / one expected '
+                'result line per target, worded after the answer for THAT target)'),
+    'status': ('status_mon_case', 'status_monitor_ok',
+               'status exits with a status other than the specified one (3 when a shown process is stopped, else 4 when '
+               'a name matched nothing, else 0)'),
+    'tail': ('tail_mon_case', 'tail_monitor_ok',
+             'tail/maintail: the read call, the printed text or the exit status differ from the specification (last N bytes '
+             'of the named log: readProcessStdoutLog/StderrLog/readLog(name, -N, 0), N = 0 the whole log; only -f follows; '
+             'NO_FILE / FAILED / BAD_NAME worded as ERROR lines, exit 1)'),
+}
+
+
+def run_monitors(chk, wd, mons):
+    """the specification monitors of CtlSpec.v on the implementation's own output;
+    returns the (line, script) keys of the rejected runs"""
+    import c20_proxy as H
+    rejected = set()
+    total = 0
+    for name in ('targets', 'status', 'tail'):
+        terms, metas = mons[name]
+        ctype, fn, kind = MONITORS[name]
+        total += len(terms)
+        bad, errs = H.compare(vlib, IMPORTS, ctype, fn, terms, wd, 'mon_' + name, PREAMBLE)
+        for e in errs:
+            chk.violation({'kind': '%s monitor evaluation failed' % name, 'error': e}, nofail=True)
+        for i in bad[:5]:
+            chk.violation(dict(metas[i], kind=kind, coq_case=terms[i][:3000]))
+        rejected |= set(json.dumps([metas[i]['line'], metas[i]['script']]) for i in bad)
+    return rejected, total
+
+
 def _run(chk, wd, proved, only):
     if getattr(chk, 'proof_failure', None) and 'translator' in chk.proof_failure:
         # the tables could not be regenerated, so the model cannot be evaluated against this
-        # tree; the specification monitor (hand-written, CtlSpec.v) can still judge the
+        # tree; the specification monitors (hand-written, CtlSpec.v) can still judge the
         # implementation's own output: look for a concrete failing input
-        found = False
+        rejected = set()
         ok, _log = vlib.coq_make(['C20/CtlSpec.vo'])
         if ok:
-            import c20_proxy as H
             cs = Cases(chk)
             gen_targets(cs, True)
             gen_status(cs, True)
-            _t, _m, mon_terms, mon_metas, _d, stat_terms, stat_metas = run_cases(chk, cs.cases, wd)
-            mbad, _e = H.compare(vlib, IMPORTS, 'mon_case', 'monitor_ok', mon_terms, wd, 'mon', PREAMBLE)
-            for i in mbad[:5]:
-                found = True
-                chk.violation(dict(mon_metas[i], kind='the implementation violates the C20 specification monitor '
-                                   '(exit status / never silent / one expected result line per target)',
-                                   coq_case=mon_terms[i][:3000]))
-            sbad, _e = H.compare(vlib, IMPORTS, 'status_mon_case', 'status_monitor_ok', stat_terms, wd, 'stat', PREAMBLE)
-            for i in sbad[:5]:
-                found = True
-                chk.violation(dict(stat_metas[i], kind='status exits with a status other than the specified one'))
-            chk.coverage['evaluations'] = len(mon_terms) + len(stat_terms)
+            gen_tail(cs, True)
+            _t, _m, mons, _d = run_cases(chk, cs.cases, wd)
+            rejected, total = run_monitors(chk, wd, mons)
+            chk.coverage['evaluations'] = total
         chk.violation({'kind': 'translator rejected the current source (fail closed)', 'detail': chk.proof_failure},
-                      nofail=not (found or direct_failures(chk)))
+                      nofail=not (rejected or direct_failures(chk)))
         return
     if only is not None:
         cases, n_exh = only, len(only)
     else:
         cases, n_exh = build_cases(chk)
-    terms, metas, mon_terms, mon_metas, distinct, stat_terms, stat_metas = run_cases(chk, cases, wd)
+    terms, metas, mons, distinct = run_cases(chk, cases, wd)
     # 1. model against implementation
     import c20_proxy as H
     bad, errs = H.compare(vlib, IMPORTS, 'ctl_case', 'check_case', terms, wd, 'corr', PREAMBLE)
     for e in errs:
         chk.violation({'kind': 'model evaluation failed', 'error': e}, nofail=True)
-    # 2. specification monitor on the implementation's own output
-    mbad, merrs = H.compare(vlib, IMPORTS, 'mon_case', 'monitor_ok', mon_terms, wd, 'mon', PREAMBLE)
-    for e in merrs:
-        chk.violation({'kind': 'monitor evaluation failed', 'error': e}, nofail=True)
-    for i in mbad[:5]:
-        chk.violation(dict(mon_metas[i], kind='the implementation violates the C20 specification monitor '
-                           '(exit status / never silent / one expected result line per target)',
-                           coq_case=mon_terms[i][:3000]))
-    sbad, serrs = H.compare(vlib, IMPORTS, 'status_mon_case', 'status_monitor_ok', stat_terms, wd, 'stat', PREAMBLE)
-    for e in serrs:
-        chk.violation({'kind': 'status monitor evaluation failed', 'error': e}, nofail=True)
-    for i in sbad[:5]:
-        chk.violation(dict(stat_metas[i], kind='status exits with a status other than the specified one (3 when a shown '
-                           'process is stopped, else 4 when a name matched nothing, else 0)', coq_case=stat_terms[i][:3000]))
-    mon_bad_lines = set(json.dumps([stat_metas[i]['line'], stat_metas[i]['script']]) for i in sbad)
-    mon_bad_lines |= set(json.dumps([mon_metas[i]['line'], mon_metas[i]['script']]) for i in mbad)
+    # 2. specification monitors on the implementation's own output
+    rejected, n_mon = run_monitors(chk, wd, mons)
     shown = 0
     for i in bad:
         m = metas[i]
-        if json.dumps([m['line'], m['script']]) in mon_bad_lines:
+        if json.dumps([m['line'], m['script']]) in rejected:
             continue    # already reported with a failing input
         if shown < 5:
             chk.violation(dict(m, kind='model and implementation disagree',
@@ -637,14 +777,14 @@ def _run(chk, wd, proved, only):
                                explanation='the Coq model of supervisorctl (about which the C20 theorems are proved) prints '
                                            'different messages, exits with a different status or makes different RPC calls '
                                            'than the implementation on this command line and server script'),
-                          nofail=not (mbad or sbad or direct_failures(chk)))
+                          nofail=not (rejected or direct_failures(chk)))
             shown += 1
     known = 0   # no known finding is left for C20 (822c50e, b349796, 4ba7a04)
     if not proved:
         chk.violation({'kind': 'proof obligation no longer checks', 'detail': chk.proof_failure,
                        'file': 'coq/props/C20.v'}, nofail=not [v for v in chk.violations if not v[1]])
     cov = chk.coverage
-    cov['evaluations'] = len(terms) + len(mon_terms) + len(stat_terms)
+    cov['evaluations'] = len(terms) + n_mon
     cov['traces_validated_against_impl'] = len(terms)
     cov['distinct_nontrivial'] = len([d for d in distinct if d[1] or d[2] != 0])
     cov['exhaustive'] = True
@@ -658,7 +798,7 @@ def _run(chk, wd, proved, only):
                                'one position full x 5 representative codes elsewhere' if chk.tier == 'quick' else 'full cube',
                                len(INFO_SETS), len(terms) - n_exh if only is None else 0))
     cov['samples'] = [{k: m[k] for k in ('line', 'script', 'printed', 'exitstatus')} for m in metas[:1] + metas[2000:2002] + metas[-2:]]
-    cov['monitor_cases'] = len(mon_terms) + len(stat_terms)
+    cov['monitor_cases'] = n_mon
     cov['known_finding_runs'] = known
 
 
@@ -668,7 +808,7 @@ def replay(chk, path):
     print(json.dumps(obj, indent=1)[:4000])
     if 'line' in obj and 'script' in obj:
         case = {'line': obj['line'], 'script': obj['script'], 'url': obj.get('url'), 'fam': 'corpus',
-                'responder': None, 'targets': None}
+                'responder': None, 'targets': None, 'tail': None}
         run(chk, only=[case])
     else:
         run(chk)
